@@ -243,6 +243,13 @@ func c02Cases(r *hutil.Rng, n int, thorough bool) []Case {
 	idx++
 	out = append(out, c02Pinned(idx, []c02Stmt{{kind: "update", rows: true, viaQuery: true}, {kind: "insert", rows: true, viaQuery: true}}, c02Fault{name: "none"}))
 	idx++
+	// an explicit transaction whose FIRST statement matches no row while a later one writes rows
+	for _, sh := range [][]c02Stmt{{{kind: "update", rows: false}, {kind: "insert", rows: true}}, {{kind: "update", rows: false}, {kind: "update", rows: true}, {kind: "delete", rows: true}}} {
+		for _, f := range []c02Fault{{name: "none"}, {name: "uexec", db: []fakedb.Fault{fUExec}}, {name: "commit", db: []fakedb.Fault{fCommit}}} {
+			out = append(out, c02Case(idx, "explicit", true, sh, f, "clean"))
+			idx++
+		}
+	}
 	expShapes := [][]c02Stmt{{{kind: "update", rows: true}}, {{kind: "update", rows: true}, {kind: "insert", rows: true}}, {{kind: "delete", rows: true}, {kind: "update", rows: false}}, {}, {{kind: "update", rows: false}}}
 	for _, sh := range expShapes {
 		for _, f := range c02CommitFaults() {
